@@ -97,6 +97,16 @@ CHECKS = {
             "refused with ConnectionError.",
             "Model in vchecks/c14.py. In-range initial values only; dimension mismatches not generated.",
             "DESIGN.md §4 C14"),
+    "C17": ("exploration",
+            "Hypothesis-generated clock/input/reset event schedules (harness-owned clocks, coincident edges) judged by "
+            "shift-register, release-counter and pulse-count monitors",
+            "FFSynchronizer is compared with a `stages`-deep shift register preloaded with the initial value over all "
+            "widths/stage counts/edges/reset configurations; AsyncFFSynchronizer and ResetSynchronizer with a monitor that "
+            "demands assertion in the very event the input asserts and release after exactly `stages` active edges; "
+            "PulseSynchronizer with pulse conservation (outputs == inputs after a drain, never ahead) over schedules that "
+            "satisfy the stated precondition by construction, including coincident edges and a shared domain.",
+            "Monitors in vchecks/c17.py; inputs change only between clock events.",
+            "DESIGN.md §4 C17"),
 }
 
 TITLES = {}
